@@ -306,7 +306,11 @@ func (wl *Wallet) buildWithClient(st *Step, rb *rawBuild, nextUpd, nextRec keyUs
 		}
 		signer := &apiSigner{lib: libSigner(key, key.Type.Alg(), rb.kid), jwk: jwk}
 		// the commitment the client derives the reveal-value algorithm from
-		current := ref.Commitment(rb.alg, w.refJWK(rb.sign))
+		calg := rb.alg
+		if rb.sign.Alg != 0 {
+			calg = rb.sign.Alg
+		}
+		current := ref.Commitment(calg, w.refJWK(rb.sign))
 		switch rb.kind {
 		case ref.Update:
 			opts := []update.Option{update.WithSidetreeEndpoint(endpoints), update.WithMultiHashAlgorithm(rb.alg), update.WithSigner(signer),
